@@ -166,7 +166,7 @@ theorem good_opt (t : Ty) (g : Good t) (hne : acceptsExtant t = false) : Good (.
     intro names h x hx
     have hspec := optBodyOK_spec names t (by simpa [bodySafe] using h)
     cases x <;> simp [okInst] at hx
-    · simp [codecOf, optCodec, bodySplit, optDecBody]
+    · simp [codecOf, optCodec, bodySplit, optDecBody, Generated.emptyBodyAcceptsExtant]
     · rename_i y
       have hb := g.body names hspec.1 y hx
       have h1 := g.notExtant hne y hx
